@@ -26,7 +26,7 @@ fn main() {
     // systematic schedule sweeps (sched.rs): quick = every schedule with one deviation from the
     // default one, thorough = with up to two (cut at a budget per configuration)
     let sweep_depth: usize = if cli.thorough { 2 } else { 1 };
-    let sweep_cap: u64 = if cli.thorough { 120_000 } else { 6_000 };
+    let sweep_cap: u64 = if cli.thorough { 40_000 } else { 6_000 };
     let sweep_cases: u64 = if cli.thorough { 96 } else { 32 };
     let (rule, assumptions): (&str, Vec<&str>) = match cli.property.as_str() {
         "C08" => {
